@@ -491,4 +491,109 @@ theorem step_rej_id {s : Store} (h : BWF s) (op : Op) (hr : (step true s op).2 =
     | del v => simp [delChildren_ok h v] at hr
     | sort v sw => simp at hr
 
+/-! ### C20 (BinaryNode part): the assertion block is a pure guard -/
+
+theorem setParent_off_same {s : Store} {f : Fault} {v : Nat} {np : Option Nat}
+    (hok : (setParent true f s v np).2 = .ok) : setParent false f s v np = setParent true f s v np := by
+  unfold setParent at hok ⊢
+  by_cases h1 : parentTypeBad s np = true
+  · simp [h1] at hok
+  by_cases h2 : parentLoopBad s v np = true
+  · simp [h1, h2] at hok
+  simp [h1, h2]
+
+theorem setChildren_off_same {s : Store} {f : Fault} {v : Nat} {l : List (Option Nat)}
+    (hok : (setChildren true f s v l).2 = .ok) : setChildren false f s v l = setChildren true f s v l := by
+  unfold setChildren at hok ⊢
+  cases hnorm : normChildren l with
+  | none => rfl
+  | some new =>
+    by_cases hb : childrenLoopBad s v new [] = true
+    · simp [hnorm, hb] at hok
+    · simp [hb]
+
+/-- **C20 (BinaryNode).** A call accepted with the checks on gives the same outcome and the same
+store with the checks off: the `if ASSERTIONS:` blocks only ever reject. -/
+theorem assertions_off_same {s : Store} {op : Op} (hok : (step true s op).2 = .ok) :
+    step false s op = step true s op := by
+  unfold step at hok ⊢
+  by_cases hsub : s.n ≤ op.subject
+  · simp [hsub]
+  · simp only [hsub, if_false] at hok ⊢
+    cases op with
+    | parent v np f => exact setParent_off_same hok
+    | children v l f =>
+      cases l with
+      | none => rfl
+      | some l => exact setChildren_off_same hok
+    | left v x f =>
+      simp only [setLeft] at hok ⊢
+      cases hs : slotAt? s v 1 with
+      | none => rfl
+      | some r => simp only [hs] at hok ⊢; exact setChildren_off_same hok
+    | right v x f =>
+      simp only [setRight] at hok ⊢
+      cases hs : slotAt? s v 0 with
+      | none => rfl
+      | some r => simp only [hs] at hok ⊢; exact setChildren_off_same hok
+    | del v => rfl
+    | sort v sw => rfl
+
+/-- switching the checks off only removes rejections -/
+theorem off_only_removes_rejections {s : Store} {op : Op} (hr : (step false s op).2 = .rej) :
+    (step true s op).2 = .rej := by
+  cases h : (step true s op).2 with
+  | rej => rfl
+  | ok => rw [assertions_off_same h, h] at hr; cases hr
+
+/-- every call of the history is accepted with the checks on -/
+def AllOk : Store → List Op → Prop
+  | _, [] => True
+  | s, op :: ops => (step true s op).2 = .ok ∧ AllOk (step true s op).1 ops
+
+instance decAllOk : ∀ (s : Store) (ops : List Op), Decidable (AllOk s ops)
+  | _, [] => isTrue trivial
+  | s, op :: ops =>
+    match decEq (step true s op).2 .ok, decAllOk (step true s op).1 ops with
+    | isTrue h1, isTrue h2 => isTrue ⟨h1, h2⟩
+    | isFalse h1, _ => isFalse fun h => h1 h.1
+    | _, isFalse h2 => isFalse fun h => h2 h.2
+
+/-- **C20 (BinaryNode), histories.** A history accepted with the checks on produces, call by call,
+the same outcomes and the same stores with the checks off. -/
+theorem trace_assertions_off_same : ∀ (s : Store) (ops : List Op), AllOk s ops →
+    trace false s ops = trace true s ops
+  | _, [], _ => rfl
+  | s, op :: ops, h => by
+    simp only [trace]
+    rw [assertions_off_same h.1, trace_assertions_off_same _ ops h.2]
+
+theorem run_assertions_off_same : ∀ (s : Store) (ops : List Op), AllOk s ops →
+    run false s ops = run true s ops
+  | _, [], _ => rfl
+  | s, op :: ops, h => by
+    simp only [run, List.foldl_cons]
+    rw [assertions_off_same h.1]
+    exact run_assertions_off_same _ ops h.2
+
+/-- the accepted sub-history (what the harness feeds to both configurations): rejected calls of a
+history change nothing (C02), so dropping them gives an accepted history with the same final store -/
+def acceptedOps : Store → List Op → List Op
+  | _, [] => []
+  | s, op :: ops =>
+    if (step true s op).2 = .ok then op :: acceptedOps (step true s op).1 ops
+    else acceptedOps s ops
+
+theorem acceptedOps_allOk : ∀ (s : Store) (ops : List Op), AllOk s (acceptedOps s ops)
+  | _, [] => trivial
+  | s, op :: ops => by
+    simp only [acceptedOps]
+    split
+    · rename_i h; exact ⟨h, acceptedOps_allOk _ ops⟩
+    · exact acceptedOps_allOk _ ops
+
+example : AllOk (init 3) [.children 0 (some [some 1, some 2]) .none, .parent 2 none .none, .left 1 (some 2) .none] := by
+  decide
+
+
 end BinStore
